@@ -25,7 +25,7 @@ type Profile struct {
 }
 
 func weighted(w map[string]int) []string {
-	order := []string{"resolve", "reserr", "state", "pick", "done", "adv", "failnew", "cancel", "allready", "bindflow", "decall", "readyrepl", "staledown", "emptypool", "saturate", "refreshcycle", "stalede", "affswap", "fbflow", "bindacross", "growmax", "multibind", "fillwm"}
+	order := []string{"resolve", "reserr", "state", "pick", "done", "adv", "failnew", "cancel", "allready", "bindflow", "decall", "readyrepl", "staledown", "emptypool", "saturate", "refreshcycle", "stalede", "affswap", "fbflow", "bindacross", "growmax", "multibind", "fillwm", "affburst", "flaprefresh"}
 	var out []string
 	for _, k := range order {
 		for i := 0; i < w[k]; i++ {
@@ -237,6 +237,12 @@ func genStep(p *Profile, cfg *Config) *rapid.Generator[[]Op] {
 				}
 			}
 			ops = append(ops, Op{K: "pick", M: 2, Key: key}, Op{K: "pick", M: rapid.SampledFrom([]int{2, 3, 5}).Draw(t, "fm"), Key: key})
+			if rapid.IntRange(0, 3).Draw(t, "unbindonly") == 0 {
+				// unbind while on the stand-in; afterwards the key is unknown and must be spread by load
+				ops = append(ops, Op{K: "pick", M: 3, Key: key}, Op{K: "done", Idx: -1, Out: 0}, Op{K: "pick", M: 0}, Op{K: "pick", M: 0},
+					Op{K: "pick", M: 2, Key: key}, Op{K: "pick", M: 2, Key: key}, Op{K: "pick", M: 2, Key: key})
+				return ops
+			}
 			if rapid.IntRange(0, 2).Draw(t, "rebind") == 0 {
 				// unbind while on the stand-in, bind again, use the key
 				ops = append(ops, Op{K: "pick", M: 3, Key: key}, Op{K: "done", Idx: -1, Out: 0}, Op{K: "pick", M: 1, Key: key}, Op{K: "done", Idx: -1, Out: 0},
@@ -269,6 +275,44 @@ func genStep(p *Profile, cfg *Config) *rapid.Generator[[]Op] {
 				ops = append(ops, Op{K: "pick", M: 0})
 			}
 			return append(ops, Op{K: "pick", M: 0}, Op{K: "pick", M: 0})
+		case "affburst":
+			// a very large number of successful BINDs on the only READY channel, then the others come up
+			n := 300
+			if rapid.IntRange(0, 149).Draw(t, "hugeburst") == 0 {
+				n = 70000 // beyond 16-bit counters (about 0.3 s per case: rare)
+			}
+			ops := []Op{}
+			for i := 1; i < 6; i++ {
+				ops = append(ops, Op{K: "state", Sel: 0, Idx: i, St: 3})
+			}
+			ops = append(ops, Op{K: "state", Sel: 0, Idx: 0, St: 2}, Op{K: "burst", M: 1, Key: rapid.IntRange(0, 3).Draw(t, "burstkey"), N: n})
+			for i := 0; i < 6; i++ {
+				ops = append(ops, Op{K: "state", Idx: i, St: 2})
+			}
+			for i := 0; i < 5; i++ {
+				ops = append(ops, Op{K: "pick", M: 0})
+			}
+			return ops
+		case "flaprefresh":
+			// while a channel is being refreshed another one flaps; then load arrives
+			calls := cfg.UdCalls
+			if calls < 1 {
+				calls = 1
+			}
+			var ops []Op
+			for j := 0; j < calls; j++ {
+				ops = append(ops, Op{K: "pick", M: 0, DlMs: 1}, Op{K: "adv", Mode: 1, Idx: -1, Eps: 1}, Op{K: "done", Idx: -1, Out: 2})
+			}
+			oi := rapid.IntRange(0, 5).Draw(t, "flapslot")
+			ops = append(ops, Op{K: "state", Sel: 0, Idx: oi, St: rapid.SampledFrom([]int{3, 1, 0}).Draw(t, "flapst")}, Op{K: "state", Sel: 0, Idx: oi, St: 2})
+			for i := 0; i < 4; i++ {
+				ops = append(ops, Op{K: "pick", M: 0})
+			}
+			ops = append(ops, Op{K: "state", Sel: 1, Idx: 0, St: 2})
+			for i := 0; i < 4; i++ {
+				ops = append(ops, Op{K: "pick", M: 0})
+			}
+			return ops
 		case "growmax":
 			// keep calls open and bring every new channel up until the pool cannot grow any more
 			per := cfg.WM
@@ -308,7 +352,7 @@ func GenCase(t *rapid.T, p *Profile) *Case {
 		cfg.Min = rapid.IntRange(0, 6).Draw(t, "min")
 		cfg.Max = rapid.IntRange(0, 6).Draw(t, "max")
 		cfg.WM = rapid.IntRange(0, 4).Draw(t, "wm")
-		if p.CfgOps && rapid.IntRange(0, 7).Draw(t, "bigwm") == 0 {
+		if (p.CfgOps || p.Name == "size") && rapid.IntRange(0, 7).Draw(t, "bigwm") == 0 {
 			cfg.WM = rapid.SampledFrom([]int{99, 100, 101, 150}).Draw(t, "wmbig")
 			cfg.Min, cfg.Max = 1, rapid.SampledFrom([]int{0, 1, 2}).Draw(t, "maxbig")
 		}
@@ -369,11 +413,11 @@ var Profiles = map[string]*Profile{
 	"affinity": {Name: "affinity", Min: [2]int{1, 4}, Max: [2]int{1, 5}, WM: []int{1, 2, 3, 100}, Fallback: 30, UdMs: []int64{0, 7, 100}, UdCalls: []int{1, 1, 2}, Strict: 50, Shutdown: true,
 		W: map[string]int{"resolve": 1, "state": 8, "pick": 18, "done": 10, "adv": 2, "allready": 2, "bindflow": 10, "decall": 8, "readyrepl": 8, "staledown": 3, "affswap": 8, "fbflow": 2, "stalede": 1, "bindacross": 6, "multibind": 6}, Methods: allMethods},
 	"load": {Name: "load", Min: [2]int{1, 5}, Max: [2]int{1, 5}, WM: []int{1, 2, 3, 4, 5}, Fallback: 20, UdMs: []int64{0, 7, 100}, UdCalls: []int{1, 2}, RR: 15, Strict: 50,
-		W: map[string]int{"resolve": 1, "state": 8, "pick": 25, "done": 22, "adv": 2, "allready": 3, "bindflow": 3, "decall": 6, "readyrepl": 6, "staledown": 3, "saturate": 3, "refreshcycle": 3, "stalede": 2}, Methods: []int{0, 0, 0, 0, 2, 2, 9, 1, 3}},
+		W: map[string]int{"resolve": 1, "state": 8, "pick": 25, "done": 22, "adv": 2, "allready": 3, "bindflow": 3, "decall": 6, "readyrepl": 6, "staledown": 3, "saturate": 3, "refreshcycle": 3, "stalede": 2, "fbflow": 3, "flaprefresh": 3, "affburst": 1}, Methods: []int{0, 0, 0, 0, 2, 2, 9, 1, 3}},
 	"size": {Name: "size", Wild: true, WM: []int{1}, Fallback: 10, UdMs: []int64{0, 7}, UdCalls: []int{1}, Strict: 50, Shutdown: true,
-		W: map[string]int{"resolve": 3, "state": 10, "pick": 20, "done": 6, "adv": 1, "failnew": 2, "allready": 5, "decall": 3, "readyrepl": 3, "emptypool": 1, "saturate": 6, "growmax": 2}, Methods: []int{0, 0, 0, 2, 9}, NoFirst: 5},
+		W: map[string]int{"resolve": 3, "state": 10, "pick": 20, "done": 6, "adv": 1, "failnew": 2, "allready": 5, "decall": 3, "readyrepl": 3, "emptypool": 1, "saturate": 6, "growmax": 2, "fillwm": 2, "flaprefresh": 3}, Methods: []int{0, 0, 0, 2, 9}, NoFirst: 5},
 	"states": {Name: "states", Min: [2]int{1, 4}, Max: [2]int{1, 5}, WM: []int{1, 2, 100}, Fallback: 30, UdMs: []int64{7, 100}, UdCalls: []int{1}, Strict: 50, Shutdown: true, Hostile: true,
-		W: map[string]int{"resolve": 1, "state": 30, "pick": 8, "done": 4, "adv": 1, "allready": 2, "decall": 8, "readyrepl": 8, "staledown": 4, "refreshcycle": 3}, Methods: allMethods},
+		W: map[string]int{"resolve": 1, "state": 30, "pick": 8, "done": 4, "adv": 1, "allready": 2, "decall": 8, "readyrepl": 8, "staledown": 4, "refreshcycle": 3, "flaprefresh": 4}, Methods: allMethods},
 	"hostile": {Name: "hostile", Wild: true, WM: []int{1}, Fallback: 50, UdMs: []int64{0, 1, 7}, UdCalls: []int{0, 1}, RR: 25, Strict: 50, Shutdown: true, Hostile: true, CfgOps: true, NoFirst: 20,
 		W: map[string]int{"resolve": 4, "reserr": 1, "state": 12, "pick": 20, "done": 10, "adv": 2, "failnew": 3, "cancel": 2, "allready": 3, "bindflow": 4, "decall": 6, "readyrepl": 5, "staledown": 3, "emptypool": 1, "saturate": 2, "affswap": 3, "fbflow": 3, "refreshcycle": 2, "bindacross": 2, "multibind": 2}, Methods: hostileMethods},
 	"detector": {Name: "detector", Min: [2]int{1, 3}, Max: [2]int{1, 3}, WM: []int{100, 100, 2}, UdMs: []int64{0, 1, 7, 100, 60000, 1 << 31, 1<<32 - 1}, UdCalls: []int{0, 1, 2, 3, 4}, Strict: 50, Shutdown: true,
